@@ -7,17 +7,19 @@ PROPS = "props/C24.v"
 RUNNER = ("SAV.engine.ResetSeqRun", "run_case")
 STATIC_MODULES = ["SAV.engine.ResetSeqRun"]
 RULE = (
-    "sequences of users, each checking a connection out of a real Engine (engine.connect()), performing Connection-level "
-    "operations (write, commit, rollback, begin, execution_options(isolation_level=...), AUTOCOMMIT, failing statement, "
-    "write violating a deferred constraint) and ending by close(), by dropping the Connection (del + gc), by invalidate() "
-    "or by never returning it; per reset_on_return value (rollback/commit/None) and pool class (QueuePool, NullPool, "
-    "StaticPool, SingletonThreadPool).  Backend 0: a fake DBAPI behind the real DefaultDialect/Engine/Connection/pool "
-    "whose commit()/rollback() fail on script (all first-user sequences of <= 2 operations x fault scripts, plus random "
-    "longer histories); backend 1: real SQLite files (in_transaction, rows invisible to a second connection, PRAGMA "
-    "read_uncommitted observed at every checkout; commit failures provoked by a deferred foreign key).  Compared at every "
-    "checkout: identity of the DBAPI connection, in-transaction flag, uncommitted writes, isolation level, autocommit, the "
-    "result class of every operation and (fake) the exact DBAPI commit/rollback/set-isolation calls.  non-trivial = some "
-    "user writes or changes a characteristic"
+    "sequences of users, each checking a connection out of a real Engine (engine.connect(), optionally an option engine "
+    "made by Engine.execution_options(isolation_level=...)), performing Connection-level operations (write, commit, "
+    "rollback, begin, begin_nested and commit/rollback/close of the savepoint, execution_options calls naming any subset of "
+    "isolation_level / logging_token / another option in ONE call or in sequence, failing statement, write violating a "
+    "deferred constraint) and ending by close() (also with savepoints open), by dropping the Connection (del + gc), by "
+    "invalidate() or by never returning it; per reset_on_return value and pool class.  Backend 0: a fake DBAPI behind the "
+    "real DefaultDialect/Engine/Connection/pool whose commit()/rollback() fail on script (all first-user sequences of <= 2 "
+    "basic operations x fault scripts, all sequences of <= 2 option calls x option engines, all savepoint sequences of <= 3 "
+    "operations, random longer histories); backend 1: real SQLite files with the pysqlite savepoint workaround.  The state "
+    "of the DBAPI connection is observed by a pool 'checkout' listener at every checkout (identity, in-transaction flag, "
+    "uncommitted writes invisible to a second connection, isolation level, autocommit), plus the result class of every "
+    "operation and (fake) the exact DBAPI commit/rollback/set-isolation/savepoint calls.  non-trivial = some user writes, "
+    "opens a savepoint or changes a characteristic"
 )
 TRUSTED = [
     "hand-written Gallina transcription (coq/engine/ResetSeq.v) of Connection.close/commit/rollback/begin/"
@@ -28,7 +30,8 @@ TRUSTED = [
     "transaction open) as observed on SQLite 3.40",
 ]
 ASSUMPTIONS = [
-    "one thread; savepoints, two-phase, detach(), reconnect-after-invalidate inside one checkout are out of scope",
+    "one thread; two-phase, detach(), reconnect-after-invalidate inside one checkout are out of scope; nested-transaction "
+    "operations address the most recently created NestedTransaction object",
     "PostgreSQL / MariaDB isolation levels are represented by the fake DBAPI only",
     "the fake DBAPI's failing commit()/rollback() leave the DBAPI transaction as it was",
 ]
@@ -47,6 +50,7 @@ ANCHORS = [
     ("lib/sqlalchemy/engine/base.py", "Connection.begin"),
     ("lib/sqlalchemy/engine/base.py", "Connection.in_transaction"),
     ("lib/sqlalchemy/engine/base.py", "Connection._autobegin"),
+    ("lib/sqlalchemy/engine/base.py", "Connection._begin_impl"),
     ("lib/sqlalchemy/engine/base.py", "Connection._invalid_transaction"),
     ("lib/sqlalchemy/engine/base.py", "Connection._rollback_impl"),
     ("lib/sqlalchemy/engine/base.py", "Connection._commit_impl"),
@@ -59,6 +63,19 @@ ANCHORS = [
     ("lib/sqlalchemy/engine/base.py", "RootTransaction._do_close"),
     ("lib/sqlalchemy/engine/base.py", "RootTransaction._do_rollback"),
     ("lib/sqlalchemy/engine/base.py", "RootTransaction._do_commit"),
+    ("lib/sqlalchemy/engine/base.py", "Connection.begin_nested"),
+    ("lib/sqlalchemy/engine/base.py", "Connection.execution_options"),
+    ("lib/sqlalchemy/engine/base.py", "Connection._savepoint_impl"),
+    ("lib/sqlalchemy/engine/base.py", "Connection._rollback_to_savepoint_impl"),
+    ("lib/sqlalchemy/engine/base.py", "Connection._release_savepoint_impl"),
+    ("lib/sqlalchemy/engine/base.py", "NestedTransaction.__init__"),
+    ("lib/sqlalchemy/engine/base.py", "NestedTransaction._deactivate_from_connection"),
+    ("lib/sqlalchemy/engine/base.py", "NestedTransaction._cancel"),
+    ("lib/sqlalchemy/engine/base.py", "NestedTransaction._close_impl"),
+    ("lib/sqlalchemy/engine/base.py", "NestedTransaction._do_close"),
+    ("lib/sqlalchemy/engine/base.py", "NestedTransaction._do_rollback"),
+    ("lib/sqlalchemy/engine/base.py", "NestedTransaction._do_commit"),
+    ("lib/sqlalchemy/engine/default.py", "DefaultDialect.set_engine_execution_options"),
     ("lib/sqlalchemy/engine/default.py", "DefaultDialect.set_connection_execution_options"),
     ("lib/sqlalchemy/engine/default.py", "DefaultDialect._set_connection_characteristics"),
     ("lib/sqlalchemy/engine/default.py", "DefaultDialect._reset_characteristics"),
@@ -66,6 +83,7 @@ ANCHORS = [
     ("lib/sqlalchemy/engine/default.py", "DefaultDialect.do_rollback"),
     ("lib/sqlalchemy/engine/default.py", "DefaultDialect.do_commit"),
     ("lib/sqlalchemy/engine/characteristics.py", "IsolationLevelCharacteristic"),
+    ("lib/sqlalchemy/engine/characteristics.py", "LoggingTokenCharacteristic"),
     ("lib/sqlalchemy/pool/base.py", "_ConnectionFairy._reset"),
     ("lib/sqlalchemy/pool/base.py", "_ConnectionFairy._close_special"),
     ("lib/sqlalchemy/pool/base.py", "_ConnectionFairy.close"),
@@ -118,6 +136,8 @@ def gen_cases(rng, tier):
         for ops in itertools.product(base, repeat=n):
             for fl in scripts:
                 for reset in (0, 1, 2):
+                    if not thorough and n == 2 and rng.random() < 0.4:
+                        continue
                     kind = rng.choice([0, 0, 1, 2, 3])
                     second = rng.choice([[], [O_WRITE, O_CLOSE], [O_ISO], [O_COMMIT, O_DROP]])
                     cases.append({"in": [[0, reset, kind, 0], [list(ops), second], fl], "kind": "fake-exhaustive"})
@@ -135,20 +155,22 @@ def gen_cases(rng, tier):
     # (a3) savepoints: short sequences over write / begin_nested / nested commit-rollback-close / commit / rollback,
     #      ended by close(), by dropping the connection or by never returning it
     sp_ops = [O_WRITE, O_NBEGIN, O_NCOMMIT, O_NROLLBACK, O_NCLOSE, O_COMMIT, O_ROLLBACK]
-    for n in range(1, 5 if thorough else 4):
+    for n in range(1, 6 if thorough else 5):
         for ops in itertools.product(sp_ops, repeat=n):
-            if O_NBEGIN not in ops or (not thorough and n == 3 and rng.random() < 0.5):
+            if n >= 4 and rng.random() > (0.3 if thorough else 0.12):
+                continue
+            if O_NBEGIN not in ops:
                 continue
             end = rng.choice([[O_CLOSE], [O_CLOSE], [O_DROP], []])
             fl = rng.choice([[], [], [1], [0, 1]])
             cases.append({"in": [[0, rng.choice([0, 0, 1, 2]), rng.choice([0, 0, 2]), 0], [list(ops) + end, [O_WRITE]], fl], "kind": "fake-savepoints"})
     # (b) fake DBAPI: random longer histories
-    for _ in range(8000 if thorough else 500):
+    for _ in range(8000 if thorough else 350):
         users = [_rand_user(rng, FAKE_OPS + [O_WRITE, O_COMMIT, O_CLOSE, O_NBEGIN], rng.randint(0, 7)) for _ in range(rng.randint(1, 4))]
         faults = [rng.choice([0, 0, 0, 1]) for _ in range(rng.randint(0, 8))]
         cases.append({"in": [[0, rng.choice([0, 0, 1, 2]), rng.choice([0, 0, 1, 2, 3]), rng.choice([0, 0, 1, 2])], users, faults], "kind": "fake-random"})
     # (c) SQLite
-    for _ in range(3000 if thorough else 350):
+    for _ in range(3000 if thorough else 220):
         users = [_rand_user(rng, SQLITE_OPS + [O_WRITE, O_COMMIT, O_CLOSE, O_FKWRITE, O_NBEGIN], rng.randint(0, 6)) for _ in range(rng.randint(1, 3))]
         cases.append({"in": [[1, rng.choice([0, 0, 1, 2]), rng.choice([0, 0, 1, 2, 3]), rng.choice([0, 0, 0, 1])], users, []], "kind": "sqlite-random"})
     for w in WITNESSES:
